@@ -4,11 +4,13 @@ from abc import abstractmethod, ABCMeta
 import six
 from typing import Optional
 
+from trashcli.fs import RealExists, RealIsStickyDir, RealIsSymLink
 from trashcli.fstab.volume_of import VolumeOf
 from trashcli.fstab.volumes import Volumes
 from trashcli.lib.environ import Environ
 from trashcli.lib.trash_dirs import (
     volume_trash_dir1, volume_trash_dir2, home_trash_dir)
+from trashcli.trash_dirs_scanner import TopTrashDirRules, top_trash_dir_valid
 
 
 @six.add_metaclass(ABCMeta)
@@ -16,6 +18,10 @@ class TrashDirectories:
     @abstractmethod
     def list_trash_dirs(self, trash_dir_from_cli):
         raise NotImplementedError()
+
+
+class RealTopTrashDirRulesReader(RealExists, RealIsStickyDir, RealIsSymLink):
+    pass
 
 
 class TrashDirectoriesImpl(TrashDirectories):
@@ -27,12 +33,28 @@ class TrashDirectoriesImpl(TrashDirectories):
         trash_directories1 = TrashDirectories1(volumes, uid, environ)
         self.trash_directories2 = TrashDirectories2(volumes,
                                                     trash_directories1)
+        self.uid = uid
+        self.top_trash_dir_rules = TopTrashDirRules(
+            RealTopTrashDirRulesReader())
 
     def list_trash_dirs(self,
                         trash_dir_from_cli,  # type: Optional[str]
                         ):
-        return self.trash_directories2.trash_directories_or_user(
+        trash_dirs = self.trash_directories2.trash_directories_or_user(
             trash_dir_from_cli)
+        if trash_dir_from_cli:
+            return trash_dirs
+        return [(path, volume) for path, volume in trash_dirs
+                if self._can_be_read(path, volume)]
+
+    def _can_be_read(self, path, volume):
+        # $topdir/.Trash/$uid must be ignored when $topdir/.Trash is a
+        # symbolic link, is not a directory or has not the sticky bit
+        for top_trash_dir, _ in volume_trash_dir1(volume, self.uid):
+            if path == top_trash_dir:
+                return (self.top_trash_dir_rules.valid_to_be_read(path)
+                        == top_trash_dir_valid)
+        return True
 
 
 class TrashDirectories2:
